@@ -654,15 +654,30 @@ def _(w):
     return which, f, (x,), {'_model': (lambda a: _m(a.conj(), _n(a))) if which == 'conj' else (lambda a: _m(a, _n(a)))}
 
 
-# ---- iterative routines (structure only; accuracy is C11-C14) ---------------------------------------------------------
+def _nk(w):
+    return {} if w.nswp is None else {'nswp': w.nswp}
+
+
+def _itm(w, product, real_only=False):
+    """dense model of an approximate product: only with the DEFAULT sweep budget (w.nswp None), where C11 promises 10*eps"""
+    if w.nswp is not None or (real_only and w.dt in (torch.complex64, torch.complex128)):
+        return {}
+
+    def m(*ds):
+        ref = product(*ds)
+        return _m(ref, _n(ds[0]) * _n(ds[1]), 10 * 1e-6 * _n(ref))
+    return {'_model': m}
+
+
+# ---- iterative routines (structure only in the C05/C06 walks; accuracy is C11-C14) ---------------------------------------------------------
 @op('fast_matvec')
 def _(w):
     A = w.pick('ttm')
     x = w.like(A, N=list(A.N), ttm=False)
     if w.rng.random() < 0.5:
         y0 = w.like(A, N=list(A.M), ttm=False)
-        return 'fast_matvec(initial)', lambda a, b, c: a.fast_matvec(b, eps=1e-6, initial=c, nswp=w.nswp, use_cpp=False), (A, x, y0)
-    return 'fast_matvec', lambda a, b: a.fast_matvec(b, eps=1e-6, nswp=w.nswp, use_cpp=False), (A, x)
+        return 'fast_matvec(initial)', lambda a, b, c: a.fast_matvec(b, eps=1e-6, initial=c, use_cpp=False, **_nk(w)), (A, x, y0), _itm(w, lambda a, b, c: torch.tensordot(a, b, dims=b.dim()))
+    return 'fast_matvec', lambda a, b: a.fast_matvec(b, eps=1e-6, use_cpp=False, **_nk(w)), (A, x), _itm(w, lambda a, b: torch.tensordot(a, b, dims=b.dim()))
 
 
 @op('dmrg_hadamard')
@@ -671,8 +686,8 @@ def _(w):
     y = w.like(x)
     if w.rng.random() < 0.5:
         z0 = w.like(x)
-        return 'dmrg_hadamard(z0)', lambda a, b, c: w.tt.dmrg_hadamard(a, b, z0=c, eps=1e-6, nswp=w.nswp), (x, y, z0)
-    return 'dmrg_hadamard', lambda a, b: w.tt.dmrg_hadamard(a, b, eps=1e-6, nswp=w.nswp), (x, y)
+        return 'dmrg_hadamard(z0)', lambda a, b, c: w.tt.dmrg_hadamard(a, b, z0=c, eps=1e-6, **_nk(w)), (x, y, z0), _itm(w, lambda a, b, c: a * b)
+    return 'dmrg_hadamard', lambda a, b: w.tt.dmrg_hadamard(a, b, eps=1e-6, **_nk(w)), (x, y), _itm(w, lambda a, b: a * b)
 
 
 @op('amen_mv')
@@ -681,8 +696,8 @@ def _(w):
     x = w.like(A, N=list(A.N), ttm=False)
     if w.rng.random() < 0.5:
         x0 = w.like(A, N=list(A.M), ttm=False)
-        return 'amen_mv(x0)', lambda a, b, c: w.tt.amen_mv(a, b, nswp=w.nswp, x0=c, eps=1e-6), (A, x, x0)
-    return 'amen_mv', lambda a, b: w.tt.amen_mv(a, b, nswp=w.nswp, eps=1e-6), (A, x)
+        return 'amen_mv(x0)', lambda a, b, c: w.tt.amen_mv(a, b, x0=c, eps=1e-6, **_nk(w)), (A, x, x0), _itm(w, lambda a, b, c: torch.tensordot(a, b, dims=b.dim()), real_only=True)
+    return 'amen_mv', lambda a, b: w.tt.amen_mv(a, b, eps=1e-6, **_nk(w)), (A, x), _itm(w, lambda a, b: torch.tensordot(a, b, dims=b.dim()), real_only=True)
 
 
 @op('amen_mm')
@@ -692,8 +707,8 @@ def _(w):
     B = w.like(A, N=K, M=list(A.N), ttm=True)
     if w.rng.random() < 0.5:
         X0 = w.like(A, N=K, M=list(A.M), ttm=True)
-        return 'amen_mm(X0)', lambda a, b, c: w.tt.amen_mm(a, b, nswp=w.nswp, X0=c, eps=1e-6), (A, B, X0)
-    return 'amen_mm', lambda a, b: w.tt.amen_mm(a, b, nswp=w.nswp, eps=1e-6), (A, B)
+        return 'amen_mm(X0)', lambda a, b, c: w.tt.amen_mm(a, b, X0=c, eps=1e-6, **_nk(w)), (A, B, X0), _itm(w, lambda a, b, c: torch.tensordot(a, b, dims=a.dim() // 2), real_only=True)
+    return 'amen_mm', lambda a, b: w.tt.amen_mm(a, b, eps=1e-6, **_nk(w)), (A, B), _itm(w, lambda a, b: torch.tensordot(a, b, dims=a.dim() // 2), real_only=True)
 
 
 def _spd_operator(w, N):
